@@ -1,5 +1,6 @@
 import KaVerif.Model.Sexp
 import KaVerif.Model.Arith
+-- STREAM aexp handleAExp
 namespace KaVerif.Driver
 open KaVerif
 
